@@ -86,9 +86,10 @@ int main(int argc, char **argv) {
             e.i("ret", r).i("amax", amax).bytes("win", o, amax + 2 * G); free(o); }
         else if (fn == "creader_lines") {   // every line of the text through creader_readline (the text is an exactly sized, unterminated heap block)
             char *p = blk(s, false); struct creader rd; creader_init(&rd, p, s.size()); std::string ls = "["; long calls = 0; bool first = true;
-            for (;;) { const char *tok = 0; ++calls; ptrdiff_t len = creader_readline(&rd, &tok); if (len < 0 || calls > (long)s.size() + 3) break;
+            bool ended = false;
+            for (;;) { const char *tok = 0; ++calls; ptrdiff_t len = creader_readline(&rd, &tok); if (len < 0) { ended = true; break; } if (calls > (long)s.size() + 3) break;
                 if (!first) ls += ","; first = false; ls += "[" + std::to_string((long)(tok - p)) + "," + std::to_string((long)len) + "]"; }
-            e.raw("lines", ls + "]").i("calls", calls).i("cur", (long)creader_curpos(&rd)).i("atend", creader_end(&rd) ? 1 : 0); free(p); }
+            e.raw("lines", ls + "]").i("calls", calls).i("ended", ended ? 1 : 0).i("cur", (long)creader_curpos(&rd)).i("atend", creader_end(&rd) ? 1 : 0); free(p); }
         else if (fn == "creader_skip") {    // skip the characters of the set a from cursor position n
             char *p = blk(s, false); char *set = blk(a, true); struct creader rd; creader_init(&rd, p, s.size()); rd.cursor = p + n;
             int r = creader_skip(&rd, set); e.i("ret", r).i("cur", (long)creader_curpos(&rd)); free(p); free(set); }
